@@ -367,7 +367,7 @@ func (m *c04Model) solve(g *c04Goal, e *menv, local map[string]*mt, k func(*menv
 			return s
 		}
 		return m.solve(g.Args[1], e, local, k)
-	case "once", "call", "ite", "not", "findall":
+	case "once", "call", "ite", "not", "findall", "nth":
 		// goals solved in a sub-search that is stopped from outside
 		id := m.nextStop + 1
 		m.nextStop++
@@ -379,6 +379,29 @@ func (m *c04Model) solve(g *c04Goal, e *menv, local map[string]*mt, k func(*menv
 				return sigFail
 			}
 			return s
+		case "nth":
+			// call_nth(G, N), N an integer: the N-th solution of G, nothing of G afterwards
+			var nth *menv
+			got := false
+			count := 0
+			s := m.solveIn(g.Args[0], e, local, id, func(e2 *menv) sig {
+				count++
+				if count < g.N {
+					return sigFail
+				}
+				nth, got = e2, true
+				m.stopID = id
+				return sigStop
+			})
+			if s == sigStop && m.stopID == id {
+				s = sigFail
+			} else if s != sigFail {
+				return s
+			}
+			if !got {
+				return sigFail
+			}
+			return k(nth)
 		case "once", "ite", "not":
 			var first *menv
 			found := false
@@ -441,6 +464,8 @@ func (m *c04Model) solve(g *c04Goal, e *menv, local map[string]*mt, k func(*menv
 		return m.raise(m.copyTerm(e, t, map[int]*mt{}))
 	case "berr":
 		switch g.Kind {
+		case "eval", "evalcmp":
+			return m.raise(isoError(mCmp("evaluation_error", mAtom("zero_divisor"))))
 		case "type":
 			return m.raise(isoError(mCmp("type_error", mAtom("evaluable"), mCmp("/", mAtom("foo"), mAtom("0")))))
 		case "inst":
